@@ -12,8 +12,8 @@ import Mathlib.Analysis.SpecialFunctions.Trigonometric.Inverse
 # C09 (part 3) — nextFrame
 
 See `Props/C09.lean` for the conventions.  `Gen.Frame.nextFrame` is regenerated from ImathFrame.h (`Gen/C09Next.lean`); it returns the new
-frame and the two tangents (non-const reference arguments, normalised in place).  `acos` is a parameter of the extracted definition: the
-C++ calls `acosf` for every element type.
+frame and the two tangents (non-const reference arguments, normalised in place).  `acos` is a parameter of the extracted definition
+(`std::acos (dot)` at the element type since fix 13e5c51; the translator validation of this entry runs bitwise at float AND double).
 -/
 set_option linter.unreachableTactic false
 set_option linter.unusedTactic false
@@ -28,8 +28,8 @@ variable {α : Type} [Field α] [LinearOrder α] [IsStrictOrderedRing α]
 
 set_option maxHeartbeats 4000000 in
 /-- `nextFrame`: the extracted 13-path tree as Mathlib matrices — `Mi · T(−pi) · R · T(pj)` with `R = axisAngleM44 (ti^ × tj^) (acos (ti^·tj^))`, the matrix `setAxisAngle` writes (`M44_setAxisAngle_eq`), when both tangents
-are non-zero, not parallel and the angle is non-zero, else `Mi · T(pj − pi)` (`nextFrameStep`; `acos` is a parameter: the code calls
-`acosf` for every element type, see the check's notes) -/
+are non-zero, not parallel and the angle is non-zero, else `Mi · T(pj − pi)` (`nextFrameStep`; `acos` is a parameter, what is assumed
+of it is stated where it is needed: `AcosSpec` in `nextFrame_tangent`) -/
 theorem nextFrame_eq (tmin tmax : α) (sqrt sin cos acos : α → α) (Mi : M44 α) (pi pj ti tj : V3 α) :
     (Gen.Frame.nextFrame tmin tmax sqrt sin cos acos Mi pi pj ti tj).1.toMat
       = Mi.toMat * nextFrameStep (Gen.V3.length tmin tmax sqrt) sin cos acos pi pj ti tj := by
@@ -59,6 +59,8 @@ theorem nextFrame_tangent (tmin tmax : α) (sqrt sin cos acos : α → α) (hlen
     (nrm (Gen.V3.length tmin tmax sqrt) ti).toVec ᵥ* nextFrameRot (Gen.V3.length tmin tmax sqrt) sin cos acos ti tj
       = (nrm (Gen.V3.length tmin tmax sqrt) tj).toVec :=
   nextFrameRot_align sin cos acos hlen hac ti tj hi hj hij
+example : (⟨1, 0, 0⟩ : V3 ℝ) ≠ ⟨0, 0, 0⟩ ∧ (⟨1, 2, 0⟩ : V3 ℝ) ≠ ⟨0, 0, 0⟩ ∧ cross (⟨1, 0, 0⟩ : V3 ℝ) ⟨1, 2, 0⟩ ≠ ⟨0, 0, 0⟩ := by
+  refine ⟨by simp, by simp, by simp [cross]⟩
 /-- real `arccos`, `sin`, `cos` satisfy the assumption -/
 example : AcosSpec Real.sin Real.cos Real.arccos :=
   ⟨Real.sin_sq_add_cos_sq, Real.cos_zero, fun x h1 h2 => ⟨Real.cos_arccos h1 h2, Real.sin_arccos x ▸ Real.sqrt_nonneg _⟩⟩
